@@ -9,6 +9,7 @@ mod measure;
 mod circuit;
 mod param;
 mod export;
+mod qft;
 mod util;
 
 use serde_json::{json, Value};
@@ -28,6 +29,7 @@ fn dispatch(case: &Value) -> Value {
         "circuit" => circuit::run_circuit(case),
         "param" => param::run_param(case),
         "export" => export::run_export(case),
+        "qft" => qft::run_qft(case),
         "sched" => sched(case),
         other => json!({"r": "harness_error", "e": format!("unknown op {}", other)}),
     }
